@@ -35,6 +35,12 @@ def run_case(ctx, idx, rng, tier):
     own_var = rng.random() < 0.5
     if own_var:  # a declared (still unused) variable: the sequence stays non-parametrized until a call *succeeds* with it
         r.step({"op": "declare_variable", "name": "cv", "dtype": "int"})
+    if idx % 3 == 1:
+        # a second declared variable whose size and type differ from case to case under ONE name: what the replicas
+        # (legacy JSON in particular) make of it must not depend on what this process decoded before
+        shape = [(None, "float"), (2, "int"), (3, "float"), (1, "int"), (2, "float")][(idx // 3) % 5]
+        r.step({"op": "declare_variable", "name": "aux", "dtype": shape[1], **({"size": shape[0]} if shape[0] else {})})
+        ctx.count("histories_with_a_variable_of_varying_shape")
     g = gen.ProgGen(rng, dev, reg, r.chspecs, weights=WEIGHTS, styles=True)
     g.motifs["slm-late"] = 0.5
     n = rng.randint(6, 30)
